@@ -4,7 +4,7 @@
    PermProofs; here only statements, short glue, witnesses and non-vacuity examples. *)
 From Coq Require Import Sorting.Sorted Sorting.Permutation.
 From HV Require Import Lib.Base C05.Model C05.NameProofs C05.OrderProofs C05.EncodeProofs C05.GuardProofs
-  C05.PermProofs.
+  C05.ShapeProofs C05.CompressProofs C05.PermProofs.
 Open Scope N_scope.
 
 (* ------------------------------------------------------------------ *)
@@ -197,45 +197,49 @@ Print Assumptions C05_size_limit_refuted.
 (* 6. Independence of record order: built-in sign / built-in verify    *)
 (* ------------------------------------------------------------------ *)
 
-(* The signed data does not depend on the order in which the records are presented (signer's
-   zone order vs. packet order at the verifier), also inside the known deviation class --
-   provided records that share a sort key are emitted alike.  PARTIAL: that proviso is proved
-   (C05_sort_key_determines_output) for single-record RRsets (SOA in practice), for every type
-   the implementation does not downcase, and for downcased types whose records have the same
-   field layout and at most one name; missing: several SOA-like records with two compressible
-   names, and RDATA with variable-length octets before a name (NAPTR). *)
-Theorem C05_perm_invariant_partial : forall nm cls s rs rs',
+(* Ord for RData (comparison of RData::to_bytes, names possibly compressed against earlier names
+   of the same RDATA) identifies the RDATA: two field lists of one layout with the same
+   to_bytes octets are equal -- for every type policy, the compressing one included. *)
+Theorem C05_sort_key_is_injective : forall t f1 f2,
+  same_shape f1 f2 -> Forall wf_field f1 -> Forall wf_field f2 ->
+  len (raw_fields f1) <= 65535 -> len (raw_fields f2) <= 65535 ->
+  to_bytes t f1 = to_bytes t f2 -> f1 = f2.
+Proof. exact to_bytes_inj. Qed.
+Print Assumptions C05_sort_key_is_injective.
+
+(* Hence the signed data does not depend on the order in which the records are presented
+   (signer's zone order vs. packet order at the verifier) -- also inside the known deviation
+   class -- for every RRset whose records share one field layout (uniform_layout: names at the
+   same positions, octet fields of equal length or of one self-delimiting frame, the trailing
+   field free; a property of the records of one type, not of the code). *)
+Theorem C05_perm_invariant : forall nm cls s rs rs',
   wf_labels (nlabels nm) -> wf_sig s -> Forall wf_rr (the_rrset nm cls s rs) ->
-  key_determines_output (the_rrset nm cls s rs) ->
+  uniform_layout (the_rrset nm cls s rs) ->
   Permutation rs rs' ->
   tbs nm cls s rs = tbs nm cls s rs'.
-Proof. exact tbs_perm_invariant. Qed.
-Print Assumptions C05_perm_invariant_partial.
-
-Theorem C05_sort_key_determines_output : forall set,
-  Forall wf_rr set ->
-  (forall a b, In a set -> In b set -> r_type a = r_type b) ->
-  (forall a b, In a set -> In b set -> a = b) \/
-  (forall a, In a set -> impl_lower (r_type a) = false) \/
-  (forall a b, In a set -> In b set -> same_shape (r_data a) (r_data b) /\ (count_names (r_data a) <= 1)%nat) ->
-  key_determines_output set.
-Proof. exact key_determines_sufficient. Qed.
-Print Assumptions C05_sort_key_determines_output.
+Proof.
+  intros nm cls s rs rs' Hn Hs Hr Hu Hp.
+  exact (tbs_perm_invariant nm cls s rs rs' Hn Hs Hr (key_determines_rrset nm cls s rs Hr Hu) Hp).
+Qed.
+Print Assumptions C05_perm_invariant.
 
 (* The same for what a verifier actually receives: the owner and the record owners in any other
    letter case, the record TTLs changed by any map that preserves their order on this RRset (a
-   cache counting them down), the records in any order.  PARTIAL for the same reason. *)
-Theorem C05_verifier_view_invariant_partial : forall nm nm' cls s rs rs' ren g,
+   cache counting them down), the records in any order. *)
+Theorem C05_verifier_view_invariant : forall nm nm' cls s rs rs' ren g,
   wf_labels (nlabels nm) -> wf_labels (nlabels nm') -> wf_sig s ->
   Forall wf_rr (the_rrset nm cls s rs) ->
-  key_determines_output (the_rrset nm cls s rs) ->
+  uniform_layout (the_rrset nm cls s rs) ->
   name_eqb nm nm' = true ->
   (forall r, In r rs -> name_eqb (r_name r) (ren r) = true) ->
   (forall a b, In a rs -> In b rs -> (g (r_ttl a) ?= g (r_ttl b)) = (r_ttl a ?= r_ttl b)) ->
   Permutation (map (retarget ren g) rs) rs' ->
   tbs nm cls s rs = tbs nm' cls s rs'.
-Proof. exact tbs_verifier_view. Qed.
-Print Assumptions C05_verifier_view_invariant_partial.
+Proof.
+  intros nm nm' cls s rs rs' ren g Hn Hn' Hs Hr Hu.
+  exact (tbs_verifier_view nm nm' cls s rs rs' ren g Hn Hn' Hs Hr (key_determines_rrset nm cls s rs Hr Hu)).
+Qed.
+Print Assumptions C05_verifier_view_invariant.
 
 Section Signatures.
   (* any signature scheme: only correctness of verify on what sign produced is assumed *)
@@ -243,11 +247,12 @@ Section Signatures.
           (verify : PK -> list byte -> SG -> bool).
   Hypothesis sig_correct : forall k d, verify (pub k) d (sign k d) = true.
 
-  (* built-in signer, then built-in verifier on the verifier's view of the records *)
-  Theorem C05_sign_then_verify_partial : forall k nm nm' cls s rs rs' ren g b,
+  (* built-in signer, then built-in verifier on the verifier's view of the records: accepted,
+     whether or not the signed data is the RFC's *)
+  Theorem C05_sign_then_verify : forall k nm nm' cls s rs rs' ren g b,
     wf_labels (nlabels nm) -> wf_labels (nlabels nm') -> wf_sig s ->
     Forall wf_rr (the_rrset nm cls s rs) ->
-    key_determines_output (the_rrset nm cls s rs) ->
+    uniform_layout (the_rrset nm cls s rs) ->
     name_eqb nm nm' = true ->
     (forall r, In r rs -> name_eqb (r_name r) (ren r) = true) ->
     (forall a b, In a rs -> In b rs -> (g (r_ttl a) ?= g (r_ttl b)) = (r_ttl a ?= r_ttl b)) ->
@@ -255,8 +260,9 @@ Section Signatures.
     tbs nm cls s rs = Ok b ->
     exists b', tbs nm' cls s rs' = Ok b' /\ verify (pub k) b' (sign k b) = true.
   Proof.
-    intros k nm nm' cls s rs rs' ren g b Hn Hn' Hs Hr Hk Hnm Hren Hg Hp Hb. exists b.
-    rewrite <- (tbs_verifier_view nm nm' cls s rs rs' ren g Hn Hn' Hs Hr Hk Hnm Hren Hg Hp).
+    intros k nm nm' cls s rs rs' ren g b Hn Hn' Hs Hr Hu Hnm Hren Hg Hp Hb. exists b.
+    rewrite <- (tbs_verifier_view nm nm' cls s rs rs' ren g Hn Hn' Hs Hr
+                  (key_determines_rrset nm cls s rs Hr Hu) Hnm Hren Hg Hp).
     split; [exact Hb|apply sig_correct].
   Qed.
 
@@ -274,7 +280,7 @@ Section Signatures.
     split; [reflexivity|apply sig_correct].
   Qed.
 End Signatures.
-Print Assumptions C05_sign_then_verify_partial.
+Print Assumptions C05_sign_then_verify.
 Print Assumptions C05_third_party_verifies_guarded.
 
 (* ------------------------------------------------------------------ *)
@@ -294,22 +300,30 @@ Example C05_guarded_example :
   let nm := Nm true [Ex] in
   let rs := [wrr 2 3600 [FN [[98]; ex]]; mkRR (Nm true [net]) 1 3600 2 [FN [[99]]]; wrr 2 3600 [FN [[97]; ex]]] in
   wf_labels (nlabels nm) /\ wf_sig (wsig 2) /\ Forall wf_rr (the_rrset nm 1 (wsig 2) rs) /\
-  known_deviation nm 1 (wsig 2) rs = false /\
+  known_deviation nm 1 (wsig 2) rs = false /\ ~ In (s_type (wsig 2)) unimplemented_downcase /\
   (exists d, rfc_signed_data nm 1 (wsig 2) rs = Some d /\ tbs nm 1 (wsig 2) rs = Ok d /\ len d = 87).
 Proof.
   cbv zeta. split; [wf_tac|]. split; [wf_tac|]. split; [apply wf_all_rrset; wf_tac|].
-  split; [vm_compute; reflexivity|]. eexists. split; [vm_compute; reflexivity|].
+  split; [vm_compute; reflexivity|].
+  split; [cbn; intros H; repeat (destruct H as [H|H]; [discriminate H|]); exact H|]. eexists. split; [vm_compute; reflexivity|].
   split; vm_compute; reflexivity.
 Qed.
 
-(* the proviso of the permutation theorem holds for the F3 witness itself (NS, one name each) *)
-Example C05_perm_example :
-  let set := [wrr 2 3600 [FN [[66]; ex]]; wrr 2 3600 [FN [[97]; ex]]] in
-  Forall wf_rr set /\
-  (forall a b, In a set -> In b set -> same_shape (r_data a) (r_data b) /\ (count_names (r_data a) <= 1)%nat).
+(* the layout hypothesis of the permutation theorems holds for the F3 witness itself (NS) and
+   for NAPTR records with flag / service / regexp strings of different lengths (framed 4 3) *)
+Example C05_layout_example :
+  uniform_layout (the_rrset (Nm true [ex]) 1 (wsig 2) [wrr 2 3600 [FN [[66]; ex]]; wrr 2 3600 [FN [[97]; ex]]]) /\
+  same_shape [FB ([0; 1; 0; 2] ++ [1; 83] ++ [0] ++ [0]); FN [ex]]
+             [FB ([0; 1; 0; 2] ++ [0] ++ [3; 83; 73; 80] ++ [1; 33]); FN [Ex; net]].
 Proof.
-  cbv zeta. split; [wf_tac|].
-  intros a b [<-|[<-|[]]] [<-|[<-|[]]]; (split; [repeat constructor|cbn; lia]).
+  split.
+  - intros a b Ha Hb. vm_compute in Ha, Hb.
+    destruct Ha as [<-|[<-|[]]], Hb as [<-|[<-|[]]]; repeat constructor.
+  - apply ss_framed with (k := 4%nat) (n := 3%nat); [| |repeat constructor].
+    + exists [0; 1; 0; 2], ([1; 83] ++ [0] ++ [0]). split; [reflexivity|]. split; [reflexivity|].
+      apply (cs_cons 2 [83]). apply (cs_cons 1 []). apply (cs_cons 0 []). constructor.
+    + exists [0; 1; 0; 2], ([0] ++ [3; 83; 73; 80] ++ [1; 33]). split; [reflexivity|]. split; [reflexivity|].
+      apply (cs_cons 2 []). apply (cs_cons 1 [83; 73; 80]). apply (cs_cons 0 [33]). constructor.
 Qed.
 
 (* a verifier's view: upper-case owners, TTLs counted down by 100, records swapped *)
@@ -339,23 +353,6 @@ Proof.
   cbv zeta. split; [wf_tac|]. split; [wf_tac|]. split; [vm_compute; discriminate|]. split.
   - cbn. intros H. repeat (destruct H as [H|H]; [discriminate H|]). exact H.
   - eexists. vm_compute. reflexivity.
-Qed.
-
-(* the proviso of the permutation theorems holds for the F3 witness (by the second theorem),
-   and NS is not on the unimplemented list *)
-Example C05_key_determines_example :
-  key_determines_output (the_rrset (Nm true [ex]) 1 (wsig 2)
-                           [wrr 2 3600 [FN [[66]; ex]]; wrr 2 3600 [FN [[97]; ex]]]) /\
-  ~ In (s_type (wsig 2)) unimplemented_downcase.
-Proof.
-  split.
-  - apply C05_sort_key_determines_output.
-    + apply wf_all_rrset. wf_tac.
-    + intros a b Ha Hb. vm_compute in Ha, Hb.
-      destruct Ha as [<-|[<-|[]]], Hb as [<-|[<-|[]]]; reflexivity.
-    + right. right. intros a b Ha Hb. vm_compute in Ha, Hb.
-      destruct Ha as [<-|[<-|[]]], Hb as [<-|[<-|[]]]; (split; [repeat constructor|cbn; lia]).
-  - cbn. intros H. repeat (destruct H as [H|H]; [discriminate H|]). exact H.
 Qed.
 
 (* a signature scheme meeting the only assumption of section Signatures *)
